@@ -124,3 +124,7 @@ fn ref_new_repeats_5_1_6() { ref_new_repeats::<5, 1, 6, 12>(); }
 #[kani::stub(core::str::from_utf8, stub_from_utf8)]
 #[kani::unwind(14)]
 fn ref_new_repeats_6_0_6() { ref_new_repeats::<6, 0, 6, 12>(); }
+#[kani::proof]
+#[kani::stub(core::str::from_utf8, stub_from_utf8)]
+#[kani::unwind(13)]
+fn ref_new_repeats_5_1_5() { ref_new_repeats::<5, 1, 5, 11>(); }
